@@ -11,7 +11,11 @@ from .core import RealisationError, SBool, SFloat, SInt, is_sym, ite, lift_float
 
 def _boxed(x):
     if isinstance(x, np.ndarray):
+        if x.dtype != object and x.dtype.kind in "fiub":
+            return x.astype(object)  # python scalars inside: numpy scalar types would re-enter ufunc dispatch
         return x.view(np.ndarray)
+    if isinstance(x, np.generic):
+        x = x.item()
     a = np.empty((), dtype=object)
     a[()] = x
     return a
@@ -754,6 +758,12 @@ class SArr(np.ndarray):
         return _argmax(self, axis=axis)
 
     def __str__(self):
+        if not has_sym(self):
+            # concrete contents: numpy's own rendering of the float64 array (8 significant digits) - faithful to the real code
+            try:
+                return str(np.array(self.view(np.ndarray), dtype=np.float64))
+            except (TypeError, ValueError):
+                pass
         return "[" + " ".join(_tok(v) for v in self.flat) + "]"
 
     __repr__ = __str__
